@@ -16,7 +16,7 @@ use serde_json::{json, Value as J};
 
 fn dom(rep: &mut Report, seed: u64) {
     let rng = Rng::derive(seed, "miri-dom", 0);
-    let cfg = Cfg { exhaustive: false, ndoms: 2, init_nodes: 3, steps: 9, max_live: 10, uid_pool: 2, rich_props: true, max_insert: 2, scenario: 0 };
+    let cfg = Cfg { exhaustive: false, ndoms: 2, init_nodes: 3, steps: 9, max_live: 10, uid_pool: 2, uid_base: 0, rich_props: true, max_insert: 2, scenario: 0 };
     let mut ch = RandCh(rng);
     for want in ["C09", "C10", "C11", "C12"] {
         let mut sub = Report::new(want);
